@@ -1,0 +1,240 @@
+//! Verification hooks, compiled only with `--cfg folo_verif` (never in a normal build).
+//!
+//! With the guard on, the atomic lifecycle byte of [`Awaiter`][crate::Awaiter] is the
+//! [`AtomicU8`] of this module instead of the one in `std`. The shim is `#[repr(transparent)]`
+//! over the `std` type and performs exactly the same operation with exactly the same
+//! [`Ordering`] arguments; in addition every operation
+//!
+//! 1. calls the installed `before` function *before* it takes effect (a verification harness
+//!    parks the calling thread there, which turns every atomic operation into a scheduling
+//!    point), and
+//! 2. calls the installed `after` function once it has taken effect, describing the
+//!    operation: location address, operation kind, the `Ordering` argument(s) written in the
+//!    source, the value observed and the value written (if any), and the call site.
+//!
+//! The table of functions is process-global and installed at most once ([`install`]). While
+//! nothing is installed the shim is plain `std` behaviour.
+
+use std::fmt;
+use std::panic::Location;
+use std::sync::OnceLock;
+use std::sync::atomic::Ordering;
+
+/// Kind of operation reported through the hook table.
+#[derive(Clone, Copy, Debug, PartialEq, Eq, Hash)]
+#[non_exhaustive]
+pub enum OpKind {
+    /// `load(order)`.
+    Load,
+    /// `store(value, order)`.
+    Store,
+    /// `compare_exchange(current, new, order, failure_order)`.
+    CompareExchange,
+    /// `fetch_or(value, order)`.
+    FetchOr,
+    /// `fetch_and(value, order)`.
+    FetchAnd,
+    /// Acquisition of a shim mutex (reported by crates that build a mutex on this table).
+    Lock,
+    /// Release of a shim mutex.
+    Unlock,
+}
+
+/// One operation on a shim location, as reported to the installed functions.
+#[derive(Clone, Copy, Debug)]
+#[non_exhaustive]
+pub struct Op {
+    /// Address of the atomic location (or of the mutex).
+    pub address: usize,
+    /// What the operation is.
+    pub kind: OpKind,
+    /// The `Ordering` argument as written at the call site (success ordering for a
+    /// compare-exchange; `Acquire` for a lock and `Release` for an unlock).
+    pub order: Ordering,
+    /// The failure ordering of a compare-exchange.
+    pub failure_order: Option<Ordering>,
+    /// The operand: the value to store, the mask, or the `new` value of a compare-exchange.
+    pub operand: u64,
+    /// The `current` value a compare-exchange expects.
+    pub expected: Option<u64>,
+    /// Value the operation observed. Only meaningful in `after` (zero for a plain store).
+    pub observed: u64,
+    /// Value the operation wrote, if it wrote. Only meaningful in `after`.
+    pub written: Option<u64>,
+    /// Source file of the call site.
+    pub file: &'static str,
+    /// Source line of the call site.
+    pub line: u32,
+}
+
+impl Op {
+    /// Describes an operation that has not taken effect yet.
+    #[must_use]
+    pub fn new(address: usize, kind: OpKind, order: Ordering, site: &'static Location<'static>) -> Self {
+        Self {
+            address,
+            kind,
+            order,
+            failure_order: None,
+            operand: 0,
+            expected: None,
+            observed: 0,
+            written: None,
+            file: site.file(),
+            line: site.line(),
+        }
+    }
+}
+
+/// The functions a verification harness installs.
+#[derive(Clone, Copy, Debug)]
+pub struct Hooks {
+    /// Called before an operation takes effect (`observed` / `written` are not filled in).
+    pub before: fn(&Op),
+    /// Called after the operation took effect.
+    pub after: fn(&Op),
+    /// Called by a shim mutex each time it finds the mutex held by someone else; the
+    /// harness yields to another thread here so that contention is visible to it.
+    pub blocked: fn(&Op),
+}
+
+static HOOKS: OnceLock<Hooks> = OnceLock::new();
+
+/// Installs the hook table. Only the first installation in a process takes effect; returns
+/// whether this call was it.
+pub fn install(hooks: Hooks) -> bool {
+    HOOKS.set(hooks).is_ok()
+}
+
+/// The installed hook table, if any.
+#[inline]
+#[must_use]
+pub fn hooks() -> Option<&'static Hooks> {
+    HOOKS.get()
+}
+
+/// Drop-in replacement for [`std::sync::atomic::AtomicU8`] that reports every operation.
+#[repr(transparent)]
+pub struct AtomicU8(std::sync::atomic::AtomicU8);
+
+impl AtomicU8 {
+    /// Creates a new atomic with the given initial value.
+    #[inline]
+    #[must_use]
+    pub const fn new(value: u8) -> Self {
+        Self(std::sync::atomic::AtomicU8::new(value))
+    }
+
+    #[inline]
+    fn address(&self) -> usize {
+        std::ptr::from_ref(&self.0).addr()
+    }
+
+    /// See [`std::sync::atomic::AtomicU8::load`].
+    #[inline]
+    #[track_caller]
+    pub fn load(&self, order: Ordering) -> u8 {
+        let Some(hooks) = hooks() else {
+            return self.0.load(order);
+        };
+        let mut op = Op::new(self.address(), OpKind::Load, order, Location::caller());
+        (hooks.before)(&op);
+        let value = self.0.load(order);
+        op.observed = u64::from(value);
+        (hooks.after)(&op);
+        value
+    }
+
+    /// See [`std::sync::atomic::AtomicU8::store`].
+    #[inline]
+    #[track_caller]
+    pub fn store(&self, value: u8, order: Ordering) {
+        let Some(hooks) = hooks() else {
+            self.0.store(value, order);
+            return;
+        };
+        let mut op = Op::new(self.address(), OpKind::Store, order, Location::caller());
+        op.operand = u64::from(value);
+        (hooks.before)(&op);
+        self.0.store(value, order);
+        op.written = Some(u64::from(value));
+        (hooks.after)(&op);
+    }
+
+    /// See [`std::sync::atomic::AtomicU8::compare_exchange`].
+    #[inline]
+    #[track_caller]
+    pub fn compare_exchange(
+        &self,
+        current: u8,
+        new: u8,
+        success: Ordering,
+        failure: Ordering,
+    ) -> Result<u8, u8> {
+        let Some(hooks) = hooks() else {
+            return self.0.compare_exchange(current, new, success, failure);
+        };
+        let mut op = Op::new(
+            self.address(),
+            OpKind::CompareExchange,
+            success,
+            Location::caller(),
+        );
+        op.failure_order = Some(failure);
+        op.operand = u64::from(new);
+        op.expected = Some(u64::from(current));
+        (hooks.before)(&op);
+        let result = self.0.compare_exchange(current, new, success, failure);
+        match result {
+            Ok(previous) => {
+                op.observed = u64::from(previous);
+                op.written = Some(u64::from(new));
+            }
+            Err(actual) => {
+                op.observed = u64::from(actual);
+            }
+        }
+        (hooks.after)(&op);
+        result
+    }
+
+    /// See [`std::sync::atomic::AtomicU8::fetch_or`].
+    #[inline]
+    #[track_caller]
+    pub fn fetch_or(&self, value: u8, order: Ordering) -> u8 {
+        let Some(hooks) = hooks() else {
+            return self.0.fetch_or(value, order);
+        };
+        let mut op = Op::new(self.address(), OpKind::FetchOr, order, Location::caller());
+        op.operand = u64::from(value);
+        (hooks.before)(&op);
+        let previous = self.0.fetch_or(value, order);
+        op.observed = u64::from(previous);
+        op.written = Some(u64::from(previous | value));
+        (hooks.after)(&op);
+        previous
+    }
+
+    /// See [`std::sync::atomic::AtomicU8::fetch_and`].
+    #[inline]
+    #[track_caller]
+    pub fn fetch_and(&self, value: u8, order: Ordering) -> u8 {
+        let Some(hooks) = hooks() else {
+            return self.0.fetch_and(value, order);
+        };
+        let mut op = Op::new(self.address(), OpKind::FetchAnd, order, Location::caller());
+        op.operand = u64::from(value);
+        (hooks.before)(&op);
+        let previous = self.0.fetch_and(value, order);
+        op.observed = u64::from(previous);
+        op.written = Some(u64::from(previous & value));
+        (hooks.after)(&op);
+        previous
+    }
+}
+
+impl fmt::Debug for AtomicU8 {
+    fn fmt(&self, f: &mut fmt::Formatter<'_>) -> fmt::Result {
+        fmt::Debug::fmt(&self.0, f)
+    }
+}
